@@ -89,6 +89,7 @@ structure LoopSpec (T : Tun) (hra : Bool) (h : Nat) (todo : List (Compactor ρ))
   throws : out.2.2.throws = acc.throws
   ent0 : out.1.head?.map (·.entered) = todo.head?.map (·.entered)
   len : todo.length ≤ out.1.length
+  one : out.1.length = 1 → out.1 = todo
 
 theorem compact_nxt_nomCap (T : Tun) (F : SecFns ρ) (c nxt : Compactor ρ) (d : Bool) :
     (c.compact T F nxt d).nxt.nomCap T = nxt.nomCap T := by
@@ -114,13 +115,13 @@ theorem compressLoop_spec {T : Tun} (hT : TunOK T) (F : SecFns ρ) (hra : Bool) 
   | zero =>
     intro h todo ctr acc R0 M0 hinv hne hr hm
     simp only [compressLoop]
-    exact ⟨hinv, hne, hr, hm, rfl, fun x => x, rfl, rfl, Nat.le_refl _⟩
+    exact ⟨hinv, hne, hr, hm, rfl, fun x => x, rfl, rfl, Nat.le_refl _, fun _ => rfl⟩
   | succ fuel ih =>
     intro h todo ctr acc R0 M0 hinv hne hr hm
     cases todo with
     | nil =>
       simp only [compressLoop]
-      exact ⟨hinv, hne, hr, hm, rfl, fun x => x, rfl, rfl, Nat.le_refl _⟩
+      exact ⟨hinv, hne, hr, hm, rfl, fun x => x, rfl, rfl, Nat.le_refl _, fun _ => rfl⟩
     | cons c rest =>
       obtain ⟨hc, hrest⟩ := hinv
       obtain ⟨hcne, hrne⟩ := AllNE_cons.1 hne
@@ -167,7 +168,7 @@ theorem compressLoop_spec {T : Tun} (hT : TunOK T) (F : SecFns ρ) (hra : Bool) 
           simp only [List.isEmpty_nil, if_true, List.tail_nil]
           split
           · -- lazy break
-            refine ⟨⟨sp.cur, sp.nx, trivial⟩, ?_, ?_, ?_, htw, by simp, ?_, ?_, by simp⟩
+            refine ⟨⟨sp.cur, sp.nx, trivial⟩, ?_, ?_, ?_, htw, by simp, ?_, ?_, by simp, by simp⟩
             · exact AllNE_cons.2 ⟨sp.curNe, AllNE_cons.2 ⟨hnxtne, AllNE_nil⟩⟩
             · simp only [sumItems_cons, sumItems_nil] at *; omega
             · simp only [sumCap_cons, sumCap_nil] at *; omega
@@ -176,13 +177,17 @@ theorem compressLoop_spec {T : Tun} (hT : TunOK T) (F : SecFns ρ) (hra : Bool) 
           · have IH := ih (h + 1) (r.nxt :: []) ⟨ctr.retained - r.num, ctr.maxNom + (Compactor.mk' T F hra (h + 1) k).nomCap T + r.capNew - r.capOld⟩
               (acc.afterCompact (if h = 0 then c.sort else c).lgWeight r.fresh r.oddConst r.rangeOk)
               (R0 + r.cur.items.length) (M0 + r.cur.nomCap T) ⟨sp.nx, trivial⟩ (AllNE_cons.2 ⟨hnxtne, AllNE_nil⟩) hR hM
-            refine ⟨⟨sp.cur, IH.inv⟩, AllNE_cons.2 ⟨sp.curNe, IH.ne⟩, ?_, ?_, ?_, by simp, ?_, ?_, ?_⟩
+            refine ⟨⟨sp.cur, IH.inv⟩, AllNE_cons.2 ⟨sp.curNe, IH.ne⟩, ?_, ?_, ?_, by simp, ?_, ?_, ?_, ?_⟩
             · have := IH.ret; simp only [sumItems_cons] at *; omega
             · have := IH.cap; simp only [sumCap_cons] at *; omega
             · have := IH.tw; simp only [totalW_cons] at this htw ⊢; omega
             · rw [IH.throws]; exact afterCompact_throws acc _ _ _ _ sp.ok
             · simp [sp.curEntered, hent1]
             · have := IH.len; simp at this ⊢ <;> omega
+            · intro h1; exfalso
+              have hnn := IH.nonnil (by simp)
+              simp only [List.length_cons] at h1
+              exact hnn (List.length_eq_zero_iff.1 (by omega))
         | cons nx rest' =>
           obtain ⟨hnx, hrest'⟩ := hrest
           obtain ⟨hnxne, hrne'⟩ := AllNE_cons.1 hrne
@@ -204,7 +209,7 @@ theorem compressLoop_spec {T : Tun} (hT : TunOK T) (F : SecFns ρ) (hra : Bool) 
             omega
           simp only [List.isEmpty_cons, Bool.false_eq_true, if_false, List.tail_cons]
           split
-          · refine ⟨⟨sp.cur, sp.nx, hrest'⟩, ?_, ?_, ?_, htw, by simp, ?_, ?_, by simp⟩
+          · refine ⟨⟨sp.cur, sp.nx, hrest'⟩, ?_, ?_, ?_, htw, by simp, ?_, ?_, by simp, by simp⟩
             · exact AllNE_cons.2 ⟨sp.curNe, AllNE_cons.2 ⟨hnxtne, hrne'⟩⟩
             · simp only [sumItems_cons] at *; omega
             · simp only [sumCap_cons] at *; omega
@@ -213,19 +218,29 @@ theorem compressLoop_spec {T : Tun} (hT : TunOK T) (F : SecFns ρ) (hra : Bool) 
           · have IH := ih (h + 1) (r.nxt :: rest') ⟨ctr.retained - r.num, ctr.maxNom + r.capNew - r.capOld⟩
               (acc.afterCompact (if h = 0 then c.sort else c).lgWeight r.fresh r.oddConst r.rangeOk)
               (R0 + r.cur.items.length) (M0 + r.cur.nomCap T) ⟨sp.nx, hrest'⟩ (AllNE_cons.2 ⟨hnxtne, hrne'⟩) hR hM
-            refine ⟨⟨sp.cur, IH.inv⟩, AllNE_cons.2 ⟨sp.curNe, IH.ne⟩, ?_, ?_, ?_, by simp, ?_, ?_, ?_⟩
+            refine ⟨⟨sp.cur, IH.inv⟩, AllNE_cons.2 ⟨sp.curNe, IH.ne⟩, ?_, ?_, ?_, by simp, ?_, ?_, ?_, ?_⟩
             · have := IH.ret; simp only [sumItems_cons] at *; omega
             · have := IH.cap; simp only [sumCap_cons] at *; omega
             · have := IH.tw; simp only [totalW_cons] at this htw ⊢; omega
             · rw [IH.throws]; exact afterCompact_throws acc _ _ _ _ sp.ok
             · simp [sp.curEntered, hent1]
             · have := IH.len; simp at this ⊢ <;> omega
+            · intro h1; exfalso
+              have hnn := IH.nonnil (by simp)
+              simp only [List.length_cons] at h1
+              exact hnn (List.length_eq_zero_iff.1 (by omega))
       · -- not full: next level
         have IH := ih (h + 1) rest ctr acc (R0 + c.items.length) (M0 + c.nomCap T) hrest hrne (by omega) (by omega)
-        refine ⟨⟨hc, IH.inv⟩, AllNE_cons.2 ⟨hcne, IH.ne⟩, ?_, ?_, ?_, by simp, IH.throws, by simp, ?_⟩
+        refine ⟨⟨hc, IH.inv⟩, AllNE_cons.2 ⟨hcne, IH.ne⟩, ?_, ?_, ?_, by simp, IH.throws, by simp, ?_, ?_⟩
         · have := IH.ret; simp only [sumItems_cons]; omega
         · have := IH.cap; simp only [sumCap_cons]; omega
         · have := IH.tw; simp only [totalW_cons]; omega
         · have := IH.len; simp; omega
+        · intro h1
+          simp only [List.length_cons] at h1
+          have h0 : (compressLoop T F hra k fuel (h + 1) rest ctr acc).1.length = 0 := by omega
+          have hl := IH.len; rw [h0] at hl
+          have hr0 : rest = [] := List.length_eq_zero_iff.1 (by omega)
+          rw [List.length_eq_zero_iff.1 h0, hr0]
 
 end DS.Req
